@@ -117,7 +117,7 @@ fn run(cur_rel_script_path: &Path) -> Result<(), Error> {
 
     let global_bindings = vec![
         (
-            RawExpr::Var{name: "print".to_string()},
+            RawExpr::Var{name: "print".to_string(), loc: (0, 0)},
             value::new_built_in_func("print".to_string(), fns::print),
         ),
     ];
